@@ -61,7 +61,7 @@ built pool into the name-server cache and the CNAME counter.  `Stable I PoolOK` 
 state invariant `I` survives these four, given that the pools used satisfy `PoolOK`; the lemmas
 below lift this through every loop and through both recursions, for every network. -/
 
-structure Stable (cfg : Config) (net : Net) (I : St → Prop) (PoolOK : Pool → Prop) : Prop where
+structure StableNs (cfg : Config) (net : Net) (I : St → Prop) (PoolOK : Pool → Prop) : Prop where
   root : PoolOK (rootPool cfg)
   cached : ∀ st z p, I st → nsGet st.nscache z = some p → PoolOK p
   fresh : ∀ ips z, (∀ ip ∈ ips, cfg.serverFilter.denied ip = false) → PoolOK ⟨ips, z⟩
@@ -69,6 +69,9 @@ structure Stable (cfg : Config) (net : Net) (I : St → Prop) (PoolOK : Pool →
   poolLookup : ∀ st pool q, I st → PoolOK pool → I (poolLookup cfg net pool q st).1
   lookup : ∀ st pool q zone, I st → PoolOK pool → I (lookup cfg net q zone pool st).1
   nsPut : ∀ st z p, I st → PoolOK p → I { st with nscache := nsPut st.nscache z p }
+
+structure Stable (cfg : Config) (net : Net) (I : St → Prop) (PoolOK : Pool → Prop) : Prop
+    extends StableNs cfg net I PoolOK where
   cnames : ∀ st n, I st → I { st with cnames := n }
 
 section framework
@@ -78,7 +81,7 @@ variable {cfg : Config} {net : Net} {I : St → Prop} {PoolOK : Pool → Prop}
 def NsRecOK (I : St → Prop) (PoolOK : Pool → Prop) (rec : NsRec) : Prop :=
   ∀ n d st, I st → I (rec n d st).1 ∧ ∀ d' p, (rec n d st).2 = .ok (d', p) → PoolOK p
 
-theorem pickPools_stable (S : Stable cfg net I PoolOK) {rec : NsRec} (hrec : NsRecOK I PoolOK rec)
+theorem pickPools_stable (S : StableNs cfg net I PoolOK) {rec : NsRec} (hrec : NsRecOK I PoolOK rec)
     (zone : Name) (depth : Nat) (pool : Pool) (hpool : PoolOK pool) :
     ∀ (ns : List Name) (st : St), I st →
       I (pickPools rec zone depth pool ns st).1 ∧
@@ -114,13 +117,13 @@ theorem pickPools_stable (S : Stable cfg net I PoolOK) {rec : NsRec} (hrec : NsR
       · exact hpool
       · exact h3 e he
 
-theorem lookupAddr_stable (S : Stable cfg net I PoolOK) (p : Pool) (hp : PoolOK p) (n : Name)
+theorem lookupAddr_stable (S : StableNs cfg net I PoolOK) (p : Pool) (hp : PoolOK p) (n : Name)
     (ty : Nat) (st : St) (h : I st) : I (lookupAddr cfg net p n ty st).1 := by
   unfold lookupAddr
   have := S.poolLookup st p ⟨n, ty⟩ h hp
   split <;> rename_i heq <;> rw [heq] at this <;> exact this
 
-theorem lookupAddrs_stable (S : Stable cfg net I PoolOK) :
+theorem lookupAddrs_stable (S : StableNs cfg net I PoolOK) :
     ∀ (pools : List (Pool × Name)) (st : St), (∀ e ∈ pools, PoolOK e.1) → I st →
       I (lookupAddrs cfg net pools st).1 := by
   intro pools
@@ -135,7 +138,7 @@ theorem lookupAddrs_stable (S : Stable cfg net I PoolOK) :
     have h2 := lookupAddr_stable S p hp1 n T_AAAA _ h1
     exact ih _ (fun e he => hp e (by simp [he])) h2
 
-theorem appendIps_stable (S : Stable cfg net I PoolOK) {rec : NsRec} (hrec : NsRecOK I PoolOK rec)
+theorem appendIps_stable (S : StableNs cfg net I PoolOK) {rec : NsRec} (hrec : NsRecOK I PoolOK rec)
     (zone : Name) (depth : Nat) (pool : Pool) (hpool : PoolOK pool) (need : List Name) (st : St)
     (h : I st) : I (appendIps cfg net rec zone depth pool need st).1 := by
   unfold appendIps
@@ -265,7 +268,7 @@ theorem appendIps_ok (rec : NsRec) (zone : Name) (depth : Nat) (pool : Pool) (ne
   unfold appendIps
   exact lookupAddrs_ok _ _
 
-theorem nsQuery_stable (S : Stable cfg net I PoolOK) (zone : Name) (pool : Pool)
+theorem nsQuery_stable (S : StableNs cfg net I PoolOK) (zone : Name) (pool : Pool)
     (hpool : PoolOK pool) (st : St) (h : I st) : I (nsQuery cfg net zone pool st).1 := by
   unfold nsQuery
   split
@@ -282,7 +285,7 @@ theorem buildPool_ips_ok (rec : NsRec) (zone : Name) (depth : Nat) (pool : Pool)
   · exact appendIps_ok _ _ _ _ _ _
   · exact collectNs_ok st _ _ _ _ _ (addGlue_ok _ _ (by intro e he; cases he)) (by simp)
 
-theorem buildPool_stable (S : Stable cfg net I PoolOK) {rec : NsRec} (hrec : NsRecOK I PoolOK rec)
+theorem buildPool_stable (S : StableNs cfg net I PoolOK) {rec : NsRec} (hrec : NsRecOK I PoolOK rec)
     (zone : Name) (depth : Nat) (pool : Pool) (hpool : PoolOK pool) (resp : Response) (st : St)
     (h : I st) :
     I (buildPool cfg net rec zone depth pool resp st).1 ∧
@@ -299,7 +302,7 @@ theorem buildPool_stable (S : Stable cfg net I PoolOK) {rec : NsRec} (hrec : NsR
   · exact appendIps_stable S hrec _ _ _ hpool _ _ h
   · exact h
 
-theorem nsStep_stable (S : Stable cfg net I PoolOK) {rec : NsRec} (hrec : NsRecOK I PoolOK rec)
+theorem nsStep_stable (S : StableNs cfg net I PoolOK) {rec : NsRec} (hrec : NsRecOK I PoolOK rec)
     (zone : Name) (depth : Nat) (pool : Pool) (hpool : PoolOK pool) (st : St) (h : I st) :
     I (nsStep cfg net rec zone depth pool st).1 ∧
       ∀ d p, (nsStep cfg net rec zone depth pool st).2 = .next d p → PoolOK p := by
@@ -326,7 +329,7 @@ theorem nsStep_stable (S : Stable cfg net I PoolOK) {rec : NsRec} (hrec : NsRecO
           rw [heq2] at hb
           exact ⟨hb.1, fun d p heq => by cases heq; exact hb.2⟩
 
-theorem nsLoop_stable (S : Stable cfg net I PoolOK) {rec : NsRec} (hrec : NsRecOK I PoolOK rec) :
+theorem nsLoop_stable (S : StableNs cfg net I PoolOK) {rec : NsRec} (hrec : NsRecOK I PoolOK rec) :
     ∀ (zs : List Name) (depth : Nat) (pool : Pool) (st : St), PoolOK pool → I st →
       I (nsLoop cfg net rec zs depth pool st).1 ∧
       ∀ d p, (nsLoop cfg net rec zs depth pool st).2 = .ok (d, p) → PoolOK p := by
@@ -347,7 +350,7 @@ theorem nsLoop_stable (S : Stable cfg net I PoolOK) {rec : NsRec} (hrec : NsRecO
       rw [heq] at hs
       exact ih d1 p1 st1 (hs.2 d1 p1 rfl) hs.1
 
-theorem nsPoolFuel_stable (S : Stable cfg net I PoolOK) :
+theorem nsPoolFuel_stable (S : StableNs cfg net I PoolOK) :
     ∀ f, NsRecOK I PoolOK (nsPoolFuel cfg net f) := by
   intro f
   induction f with
@@ -356,7 +359,7 @@ theorem nsPoolFuel_stable (S : Stable cfg net I PoolOK) :
     intro n d st h
     exact nsLoop_stable S ih _ _ _ _ S.root h
 
-theorem nsPoolForName_stable (S : Stable cfg net I PoolOK) :
+theorem nsPoolForName_stable (S : StableNs cfg net I PoolOK) :
     NsRecOK I PoolOK (nsPoolForName cfg net) := nsPoolFuel_stable S _
 
 /-! the `resolve` side -/
@@ -406,7 +409,7 @@ theorem resolveCnames_stable (S : Stable cfg net I PoolOK) {rec : ResRec} (hrec 
         · rename_i st1 e heq; rw [heq] at hc; exact hc
         · rename_i st1 chain heq; rw [heq] at hc; exact hc
 
-theorem answerQuery_stable (S : Stable cfg net I PoolOK) (q : Query) (pool : Pool)
+theorem answerQuery_stable (S : StableNs cfg net I PoolOK) (q : Query) (pool : Pool)
     (hpool : PoolOK pool) (st : St) (h : I st) : I (answerQuery cfg net q pool st).1 := by
   unfold answerQuery
   split
@@ -421,14 +424,14 @@ theorem resolveMiss_stable (S : Stable cfg net I PoolOK) {rec : ResRec} (hrec : 
     I (resolveMiss cfg net rec q depth st).1 := by
   unfold resolveMiss
   dsimp only
-  have hn := nsPoolForName_stable S (if q.qtype == T_DS then base q.name else q.name) depth st h
+  have hn := nsPoolForName_stable S.toStableNs (if q.qtype == T_DS then base q.name else q.name) depth st h
   split
   · rename_i st1 e heq
     rw [heq] at hn
     split <;> exact hn.1
   · rename_i st1 d1 pool heq
     rw [heq] at hn
-    have ha := answerQuery_stable S q pool (hn.2 d1 pool rfl) st1 hn.1
+    have ha := answerQuery_stable S.toStableNs q pool (hn.2 d1 pool rfl) st1 hn.1
     split
     · rename_i st2 e heq2; rw [heq2] at ha; exact ha
     · rename_i st2 resp heq2
@@ -784,5 +787,584 @@ theorem ns_addrs_allowed (cfg : Config) (net : Net) (q : Query) (st : St) (h : A
 
 theorem addrInv_empty (cfg : Config) : AddrInv cfg St.empty := by
   constructor <;> intro e h <;> simp [St.empty] at h
+
+/-! ## 6. `queries_bounded` — termination with an explicit bound, for every network -/
+
+def isNsRec (x : Record) : Bool := x.rtype == T_NS
+
+/-- number of NS records in a response (all sections) -/
+def nsCount (r : Response) : Nat := (r.all.filter isNsRec).length
+
+/-- the only assumption about the network: a response carries at most `N` NS records -/
+def NetBound (net : Net) (N : Nat) : Prop := ∀ ip q r, net ip q = .msg r → nsCount r ≤ N
+
+def CacheBound (N : Nat) (st : St) : Prop := ∀ q r, (q, Except.ok r) ∈ st.rcache → nsCount r ≤ N
+
+theorem nsCount_sub {a b : Response} (h : Sub a b) : nsCount a ≤ nsCount b :=
+  (h.all.filter _).length_le
+
+theorem cacheBound_stable (cfg : Config) {net : Net} {N : Nat} (hN : NetBound net N) :
+    Stable cfg net (CacheBound N) (fun _ => True) where
+  root := trivial
+  cached := fun _ _ _ _ _ => trivial
+  fresh := fun _ _ _ => trivial
+  rezone := fun _ _ _ => trivial
+  poolLookup := by
+    intro st pool q h _ q' r hm
+    obtain ⟨h1, _⟩ := poolLookup_frame cfg net pool q st
+    rw [h1] at hm
+    exact h q' r hm
+  lookup := by
+    intro st pool q zone h _ q' r hm
+    obtain ⟨_, _, _, _, _, _, h7, _⟩ := lookup_frame cfg net q zone pool st
+    rcases h7 _ hm with h' | ⟨e0, h'⟩ | ⟨r', h', _, ip, _, r0, hn, hs⟩
+    · exact h q' r h'
+    · cases h'
+    · cases h'
+      exact Nat.le_trans (nsCount_sub hs) (hN ip q r0 hn)
+  nsPut := fun st z p h _ => h
+  cnames := fun st n h => h
+
+/-- the CNAME counter is not touched by anything on the name-server side -/
+theorem cnamesEq_stable (cfg : Config) (net : Net) (k : Nat) :
+    StableNs cfg net (fun st => st.cnames = k) (fun _ => True) where
+  root := trivial
+  cached := fun _ _ _ _ _ => trivial
+  fresh := fun _ _ _ => trivial
+  rezone := fun _ _ _ => trivial
+  poolLookup := by
+    intro st pool q h _
+    obtain ⟨_, _, _, h4, _⟩ := poolLookup_frame cfg net pool q st
+    rw [h4]; exact h
+  lookup := by
+    intro st pool q zone h _
+    obtain ⟨_, h2, _⟩ := lookup_frame cfg net q zone pool st
+    rw [h2]; exact h
+  nsPut := fun st z p h _ => h
+
+/-- cost of `ns_pool_for_name` with `f` levels of nesting left: `L = ns_recursion_limit`,
+`N` = NS records per response -/
+def Tf (L N : Nat) : Nat → Nat
+  | 0 => 0
+  | f + 1 => L * (1 + N * (Tf L N f + 2))
+
+section bound
+variable {cfg : Config} {net : Net} {N : Nat}
+
+/-- what the cost lemmas need to know about the recursive call -/
+def NsCost (N : Nat) (rec : NsRec) (c : Nat) : Prop :=
+  NsRecOK (CacheBound N) (fun _ => True) rec ∧
+    ∀ n d st, CacheBound N st → (rec n d st).1.lookups ≤ st.lookups + c
+
+theorem lookupAddr_cost (p : Pool) (n : Name) (ty : Nat) (st : St) :
+    (lookupAddr cfg net p n ty st).1.lookups = st.lookups + 1 := by
+  have := (poolLookup_frame cfg net p ⟨n, ty⟩ st).2.2.2.2.1
+  unfold lookupAddr
+  split <;> rename_i heq <;> rw [heq] at this <;> exact this
+
+theorem lookupAddrs_cost : ∀ (pools : List (Pool × Name)) (st : St),
+    (lookupAddrs cfg net pools st).1.lookups = st.lookups + 2 * pools.length := by
+  intro pools
+  induction pools with
+  | nil => intro st; simp [lookupAddrs]
+  | cons e rest ih =>
+    intro st
+    obtain ⟨p, n⟩ := e
+    simp only [lookupAddrs, List.length_cons]
+    rw [ih, lookupAddr_cost, lookupAddr_cost]
+    omega
+
+theorem pickPools_cost (hN : NetBound net N) {rec : NsRec} {c : Nat} (hrec : NsCost N rec c)
+    (zone : Name) (depth : Nat) (pool : Pool) :
+    ∀ (ns : List Name) (st : St), CacheBound N st →
+      (pickPools rec zone depth pool ns st).1.lookups ≤ st.lookups + ns.length * c ∧
+      (pickPools rec zone depth pool ns st).2.length ≤ ns.length := by
+  intro ns
+  induction ns with
+  | nil => intro st _; simp [pickPools]
+  | cons n ns ih =>
+    intro st h
+    unfold pickPools
+    have hc := hrec.2 n depth st h
+    have hs := (hrec.1 n depth st h).1
+    simp only [List.length_cons, Nat.add_mul, Nat.one_mul]
+    split
+    · split
+      · rename_i st1 d1 p1 heq
+        rw [heq] at hc hs
+        obtain ⟨h1, h2⟩ := ih st1 hs
+        dsimp only at hc
+        simp only [List.length_cons]
+        constructor <;> omega
+      · rename_i st1 e1 heq
+        rw [heq] at hc hs
+        obtain ⟨h1, h2⟩ := ih st1 hs
+        dsimp only at hc
+        constructor <;> omega
+    · obtain ⟨h1, h2⟩ := ih st h
+      simp only [List.length_cons]
+      constructor <;> omega
+
+theorem appendIps_cost (hN : NetBound net N) {rec : NsRec} {c : Nat} (hrec : NsCost N rec c)
+    (zone : Name) (depth : Nat) (pool : Pool) (need : List Name) (st : St) (h : CacheBound N st) :
+    (appendIps cfg net rec zone depth pool need st).1.lookups ≤ st.lookups + need.length * (c + 2) := by
+  unfold appendIps
+  obtain ⟨h1, h2⟩ := pickPools_cost (N := N) hN hrec zone depth pool need st h
+  dsimp only
+  rw [lookupAddrs_cost, Nat.mul_add]
+  have : 2 * (pickPools rec zone depth pool need st).2.length ≤ need.length * 2 := by omega
+  omega
+
+theorem collectNs_need (f : Acs) (st : St) (parent : Name) :
+    ∀ (rs : List Record) (m : GlueMap) (config : List Ip) (need : List Name),
+      (collectNs f st parent rs m config need).2.length ≤ need.length + (rs.filter isNsRec).length := by
+  intro rs
+  induction rs with
+  | nil => intro m config need; simp [collectNs]
+  | cons r rs ih =>
+    intro m config need
+    unfold collectNs
+    split
+    · rename_i target hdata
+      have hns : isNsRec r = true := by simp [isNsRec, Record.rtype, hdata, RData.rtype]
+      simp only [List.filter_cons, hns, ↓reduceIte, List.length_cons]
+      split
+      · have := ih m config need; omega
+      · split
+        · rename_i ip ips _
+          have := ih (cachedGlue f st target m) (config ++ ip :: ips) need; omega
+        · have := ih (cachedGlue f st target m) config (need ++ [target])
+          simp only [List.length_append, List.length_singleton] at this
+          omega
+    · have := ih m config need
+      have : (rs.filter isNsRec).length ≤ ((r :: rs).filter isNsRec).length :=
+        (List.Sublist.filter _ (List.sublist_cons_self r rs)).length_le
+      omega
+
+theorem nsQuery_cost (hN : NetBound net N) (zone : Name) (pool : Pool) (st : St)
+    (h : CacheBound N st) :
+    (nsQuery cfg net zone pool st).1.lookups ≤ st.lookups + 1 ∧
+    ∀ r, (nsQuery cfg net zone pool st).2 = .ok r → nsCount r ≤ N := by
+  unfold nsQuery
+  split
+  · rename_i v hv
+    refine ⟨by dsimp only; omega, ?_⟩
+    intro r hr
+    dsimp only at hr
+    subst hr
+    unfold rcGet at hv
+    simp only [Option.map_eq_some_iff] at hv
+    obtain ⟨e, he, he2⟩ := hv
+    have hm := List.mem_of_find?_eq_some he
+    exact h e.1 r (by rw [← he2]; exact hm)
+  · obtain ⟨_, _, h3, _, _, _, _, h8⟩ := lookup_frame cfg net ⟨zone, T_NS⟩ (base zone) pool st
+    refine ⟨by omega, ?_⟩
+    intro r hr
+    obtain ⟨_, ip, _, r0, hn, hs⟩ := h8 r hr
+    exact Nat.le_trans (nsCount_sub hs) (hN ip _ r0 hn)
+
+theorem buildPool_cost (hN : NetBound net N) {rec : NsRec} {c : Nat} (hrec : NsCost N rec c)
+    (zone : Name) (depth : Nat) (pool : Pool) (resp : Response) (hresp : nsCount resp ≤ N) (st : St)
+    (h : CacheBound N st) :
+    (buildPool cfg net rec zone depth pool resp st).1.lookups ≤ st.lookups + N * (c + 2) := by
+  unfold buildPool
+  dsimp only
+  have hneed := collectNs_need cfg.serverFilter st (base zone) resp.all
+    (addGlue cfg.serverFilter [] resp.all) [] []
+  simp only [List.length_nil, Nat.zero_add] at hneed
+  have hneed' : (collectNs cfg.serverFilter st (base zone) resp.all
+      (addGlue cfg.serverFilter [] resp.all) [] []).2.length ≤ N := Nat.le_trans hneed hresp
+  split
+  · have := appendIps_cost (cfg := cfg) hN hrec zone depth pool
+      (collectNs cfg.serverFilter st (base zone) resp.all
+        (addGlue cfg.serverFilter [] resp.all) [] []).2 st h
+    have h2 := Nat.mul_le_mul_right (c + 2) hneed'
+    omega
+  · dsimp only; omega
+
+/-- one iteration: the potential `lookups + (L - depth) * K` does not grow -/
+theorem nsStep_cost (hN : NetBound net N) {rec : NsRec} {c : Nat} (hrec : NsCost N rec c)
+    (zone : Name) (depth : Nat) (pool : Pool) (st : St) (h : CacheBound N st) (st' : St) (s : Step)
+    (heq : nsStep cfg net rec zone depth pool st = (st', s)) :
+    match s with
+    | .next d' _ =>
+      st'.lookups + (cfg.nsRecursionLimit - d') * (1 + N * (c + 2)) ≤
+        st.lookups + (cfg.nsRecursionLimit - depth) * (1 + N * (c + 2))
+    | .fail _ =>
+      st'.lookups ≤ st.lookups + (cfg.nsRecursionLimit - depth) * (1 + N * (c + 2)) := by
+  have key : ∀ l' : Nat, depth + 1 < cfg.nsRecursionLimit → l' ≤ st.lookups + (1 + N * (c + 2)) →
+      l' + (cfg.nsRecursionLimit - (depth + 1)) * (1 + N * (c + 2)) ≤
+        st.lookups + (cfg.nsRecursionLimit - depth) * (1 + N * (c + 2)) := by
+    intro l' hd hl
+    have : cfg.nsRecursionLimit - depth = (cfg.nsRecursionLimit - (depth + 1)) + 1 := by omega
+    rw [this, Nat.add_mul, Nat.one_mul]
+    omega
+  unfold nsStep at heq
+  split at heq
+  · cases heq; dsimp only; omega
+  · split at heq
+    · cases heq; dsimp only; omega
+    · rename_i hlim
+      have hd : depth + 1 < cfg.nsRecursionLimit := by simpa using hlim
+      obtain ⟨hq1, hq2⟩ := nsQuery_cost (cfg := cfg) hN zone pool st h
+      have hqs := nsQuery_stable (cacheBound_stable cfg hN).toStableNs zone pool trivial st h
+      split at heq
+      · rename_i st1 e heq1
+        rw [heq1] at hq1 hq2 hqs
+        dsimp only at hq1
+        split at heq
+        · cases heq
+          dsimp only
+          have := key st'.lookups hd (by omega)
+          omega
+        · cases heq
+          dsimp only
+          exact key st'.lookups hd (by omega)
+      · rename_i st1 resp heq1
+        rw [heq1] at hq1 hq2 hqs
+        dsimp only at hq1
+        split at heq
+        · cases heq
+          dsimp only
+          exact key st'.lookups hd (by omega)
+        · have hb := buildPool_cost (cfg := cfg) hN hrec zone (depth + 1) pool resp (hq2 resp rfl) st1 hqs
+          split at heq
+          rename_i st2 p2 heq2
+          rw [heq2] at hb
+          cases heq
+          dsimp only at hb ⊢
+          exact key st'.lookups hd (by omega)
+
+theorem nsLoop_cost (hN : NetBound net N) {rec : NsRec} {c : Nat} (hrec : NsCost N rec c) :
+    ∀ (zs : List Name) (depth : Nat) (pool : Pool) (st : St), CacheBound N st →
+      (nsLoop cfg net rec zs depth pool st).1.lookups ≤
+        st.lookups + (cfg.nsRecursionLimit - depth) * (1 + N * (c + 2)) := by
+  intro zs
+  induction zs with
+  | nil => intro depth pool st _; simp [nsLoop]
+  | cons z zs ih =>
+    intro depth pool st h
+    have hs := nsStep_stable (cacheBound_stable cfg hN).toStableNs hrec.1 z depth pool trivial st h
+    unfold nsLoop
+    split
+    · rename_i st1 e heq
+      exact nsStep_cost (cfg := cfg) hN hrec z depth pool st h st1 _ heq
+    · rename_i st1 d1 p1 heq
+      have hc := nsStep_cost (cfg := cfg) hN hrec z depth pool st h st1 _ heq
+      rw [heq] at hs
+      dsimp only at hc
+      have := ih d1 p1 st1 hs.1
+      omega
+
+theorem nsPoolFuel_cost (hN : NetBound net N) :
+    ∀ f, NsCost N (nsPoolFuel cfg net f) (Tf cfg.nsRecursionLimit N f) := by
+  intro f
+  induction f with
+  | zero =>
+    exact ⟨nsPoolFuel_stable (cacheBound_stable cfg hN).toStableNs 0, fun n d st _ => by simp [nsPoolFuel]⟩
+  | succ f ih =>
+    refine ⟨nsPoolFuel_stable (cacheBound_stable cfg hN).toStableNs _, ?_⟩
+    intro n d st h
+    have := nsLoop_cost (cfg := cfg) hN ih (zonesOf n) d (rootPool cfg) st h
+    have h2 : (cfg.nsRecursionLimit - d) * (1 + N * (Tf cfg.nsRecursionLimit N f + 2)) ≤
+        cfg.nsRecursionLimit * (1 + N * (Tf cfg.nsRecursionLimit N f + 2)) :=
+      Nat.mul_le_mul_right _ (Nat.sub_le _ _)
+    show (nsLoop cfg net (nsPoolFuel cfg net f) (zonesOf n) d (rootPool cfg) st).1.lookups ≤ _
+    unfold Tf
+    omega
+
+/-- upstream lookups of one `ns_pool_for_name` call -/
+def nsBound (L N : Nat) : Nat := Tf L N (L + 1)
+
+theorem nsPoolForName_cost (hN : NetBound net N) (n : Name) (d : Nat) (st : St)
+    (h : CacheBound N st) :
+    (nsPoolForName cfg net n d st).1.lookups ≤ st.lookups + nsBound cfg.nsRecursionLimit N :=
+  (nsPoolFuel_cost hN _).2 n d st h
+
+/-! the `resolve` side: every nested `resolve` is paid for by one tick of the CNAME counter -/
+
+def ResCost (N : Nat) (R : Nat) (rec : ResRec) : Prop :=
+  ResRecOK (CacheBound N) rec ∧
+    ∀ q d st, CacheBound N st →
+      (rec q d st).1.lookups + R * st.cnames ≤ st.lookups + R * (rec q d st).1.cnames + R
+
+theorem chaseLoop_cost {R : Nat} (hN : NetBound net N) {rec : ResRec} (hrec : ResCost N R rec)
+    (resp : Response) (qtype depth : Nat) :
+    ∀ (rs chain : List Record) (st : St), CacheBound N st →
+      (chaseLoop rec resp qtype depth rs chain st).1.lookups + R * st.cnames ≤
+        st.lookups + R * (chaseLoop rec resp qtype depth rs chain st).1.cnames := by
+  intro rs
+  induction rs with
+  | nil => intro chain st _; simp [chaseLoop]
+  | cons r rs ih =>
+    intro chain st h
+    unfold chaseLoop
+    split
+    · exact ih chain st h
+    · rename_i target _
+      split
+      · exact ih chain st h
+      · dsimp only
+        have hmul : R * (st.cnames + 1) = R * st.cnames + R := by rw [Nat.mul_add, Nat.mul_one]
+        split
+        · dsimp only; omega
+        · have hst : CacheBound N { st with cnames := st.cnames + 1 } := h
+          have hc := hrec.2 ⟨target, qtype⟩ depth _ hst
+          have hs := hrec.1 ⟨target, qtype⟩ depth _ hst
+          split
+          · rename_i st1 e heq
+            rw [heq] at hc
+            dsimp only at hc ⊢
+            omega
+          · rename_i st1 r' heq
+            rw [heq] at hc hs
+            dsimp only at hc
+            have := ih (chain ++ r'.answers.filter fun x => x.rtype == qtype || x.rtype == T_CNAME) st1 hs
+            omega
+
+theorem resolveCnames_cost {R : Nat} (hN : NetBound net N) {rec : ResRec} (hrec : ResCost N R rec)
+    (resp : Response) (q : Query) (depth : Nat) (st : St) (h : CacheBound N st) :
+    (resolveCnames cfg rec resp q depth st).1.lookups + R * st.cnames ≤
+      st.lookups + R * (resolveCnames cfg rec resp q depth st).1.cnames := by
+  unfold resolveCnames
+  split
+  · simp
+  · split
+    · simp
+    · dsimp only
+      split
+      · simp
+      · have hc := chaseLoop_cost (net := net) hN hrec resp q.qtype (depth + 1) resp.all [] st h
+        split
+        · rename_i st1 e heq; rw [heq] at hc; exact hc
+        · rename_i st1 chain heq; rw [heq] at hc; exact hc
+
+theorem answerQuery_cost (q : Query) (pool : Pool) (st : St) :
+    (answerQuery cfg net q pool st).1.lookups ≤ st.lookups + 1 ∧
+    (answerQuery cfg net q pool st).1.cnames = st.cnames := by
+  have hl := lookup_frame cfg net q pool.zone pool st
+  unfold answerQuery
+  split
+  · simp
+  · split
+    · simp
+    · exact ⟨by omega, hl.2.1⟩
+  · exact ⟨by omega, hl.2.1⟩
+
+theorem resolveMiss_cost {R : Nat} (hN : NetBound net N) {rec : ResRec} (hrec : ResCost N R rec)
+    (q : Query) (depth : Nat) (st : St) (h : CacheBound N st) :
+    (resolveMiss cfg net rec q depth st).1.lookups + R * st.cnames ≤
+      st.lookups + R * (resolveMiss cfg net rec q depth st).1.cnames +
+        (nsBound cfg.nsRecursionLimit N + 1) := by
+  have S := cacheBound_stable cfg hN
+  unfold resolveMiss
+  dsimp only
+  have hn := nsPoolForName_stable S.toStableNs (if q.qtype == T_DS then base q.name else q.name) depth st h
+  have hcn := nsPoolForName_stable (cnamesEq_stable cfg net st.cnames)
+    (if q.qtype == T_DS then base q.name else q.name) depth st rfl
+  have hc := nsPoolForName_cost (cfg := cfg) hN (if q.qtype == T_DS then base q.name else q.name) depth st h
+  split
+  · rename_i st1 e heq
+    rw [heq] at hn hcn hc
+    have := hcn.1
+    dsimp only at this hc
+    split <;> dsimp only <;> rw [this] <;> omega
+  · rename_i st1 d1 pool heq
+    rw [heq] at hn hcn hc
+    have hc1 := hcn.1
+    dsimp only at hc1 hc
+    obtain ⟨ha1, ha2⟩ := answerQuery_cost (cfg := cfg) (net := net) q pool st1
+    have ha := answerQuery_stable S.toStableNs q pool trivial st1 hn.1
+    split
+    · rename_i st2 e heq2
+      rw [heq2] at ha1 ha2
+      dsimp only at ha1 ha2 ⊢
+      rw [ha2, hc1]; omega
+    · rename_i st2 resp heq2
+      rw [heq2] at ha1 ha2 ha
+      dsimp only at ha1 ha2
+      have := resolveCnames_cost (cfg := cfg) hN hrec resp q d1 st2 ha
+      rw [ha2, hc1] at this
+      omega
+
+theorem resolveFuel_cost (hN : NetBound net N) :
+    ∀ f, ResCost N (nsBound cfg.nsRecursionLimit N + 1) (resolveFuel cfg net f) := by
+  intro f
+  induction f with
+  | zero =>
+    exact ⟨resolveFuel_stable (cacheBound_stable cfg hN) 0, fun q d st _ => by simp [resolveFuel]⟩
+  | succ f ih =>
+    refine ⟨resolveFuel_stable (cacheBound_stable cfg hN) _, ?_⟩
+    intro q d st h
+    unfold resolveFuel
+    split
+    · simp
+    · rename_i r0 _
+      split
+      · have := resolveCnames_cost (cfg := cfg) hN ih r0 q d st h
+        omega
+      · exact resolveMiss_cost hN ih q d st h
+    · exact resolveMiss_cost hN ih q d st h
+
+/-! the CNAME counter stops at `MAX_CNAME_LOOKUPS + 1` -/
+
+def CnOK (rec : ResRec) : Prop :=
+  ∀ q d st, st.cnames ≤ MAX_CNAME_LOOKUPS →
+    (rec q d st).1.cnames ≤ MAX_CNAME_LOOKUPS + 1 ∧
+    ∀ r, (rec q d st).2 = .ok r → (rec q d st).1.cnames ≤ MAX_CNAME_LOOKUPS
+
+theorem chaseLoop_cn {rec : ResRec} (hrec : CnOK rec) (resp : Response) (qtype depth : Nat) :
+    ∀ (rs chain : List Record) (st : St), st.cnames ≤ MAX_CNAME_LOOKUPS →
+      (chaseLoop rec resp qtype depth rs chain st).1.cnames ≤ MAX_CNAME_LOOKUPS + 1 ∧
+      ∀ c, (chaseLoop rec resp qtype depth rs chain st).2 = .ok c →
+        (chaseLoop rec resp qtype depth rs chain st).1.cnames ≤ MAX_CNAME_LOOKUPS := by
+  intro rs
+  induction rs with
+  | nil => intro chain st h; exact ⟨by simp [chaseLoop]; omega, fun c _ => by simpa [chaseLoop] using h⟩
+  | cons r rs ih =>
+    intro chain st h
+    unfold chaseLoop
+    split
+    · exact ih chain st h
+    · rename_i target _
+      split
+      · exact ih chain st h
+      · dsimp only
+        split
+        · exact ⟨by dsimp only; omega, fun c hc => by cases hc⟩
+        · rename_i hle
+          have hle' : st.cnames + 1 ≤ MAX_CNAME_LOOKUPS := by omega
+          have hr := hrec ⟨target, qtype⟩ depth { st with cnames := st.cnames + 1 } hle'
+          split
+          · rename_i st1 e heq
+            rw [heq] at hr
+            exact ⟨hr.1, fun c hc => by cases hc⟩
+          · rename_i st1 r' heq
+            rw [heq] at hr
+            exact ih _ st1 (hr.2 r' rfl)
+
+theorem resolveCnames_cn {rec : ResRec} (hrec : CnOK rec) (resp : Response) (q : Query)
+    (depth : Nat) (st : St) (h : st.cnames ≤ MAX_CNAME_LOOKUPS) :
+    (resolveCnames cfg rec resp q depth st).1.cnames ≤ MAX_CNAME_LOOKUPS + 1 ∧
+    ∀ r, (resolveCnames cfg rec resp q depth st).2 = .ok r →
+      (resolveCnames cfg rec resp q depth st).1.cnames ≤ MAX_CNAME_LOOKUPS := by
+  unfold resolveCnames
+  split
+  · exact ⟨by dsimp only; omega, fun _ _ => h⟩
+  · split
+    · exact ⟨by dsimp only; omega, fun _ _ => h⟩
+    · dsimp only
+      split
+      · exact ⟨by dsimp only; omega, fun _ _ => h⟩
+      · have hc := chaseLoop_cn hrec resp q.qtype (depth + 1) resp.all [] st h
+        split
+        · rename_i st1 e heq; rw [heq] at hc; exact ⟨hc.1, fun r hr => by cases hr⟩
+        · rename_i st1 chain heq; rw [heq] at hc; exact ⟨hc.1, fun r _ => hc.2 chain rfl⟩
+
+theorem resolveMiss_cn {rec : ResRec} (hrec : CnOK rec) (q : Query) (depth : Nat) (st : St)
+    (h : st.cnames ≤ MAX_CNAME_LOOKUPS) :
+    (resolveMiss cfg net rec q depth st).1.cnames ≤ MAX_CNAME_LOOKUPS + 1 ∧
+    ∀ r, (resolveMiss cfg net rec q depth st).2 = .ok r →
+      (resolveMiss cfg net rec q depth st).1.cnames ≤ MAX_CNAME_LOOKUPS := by
+  unfold resolveMiss
+  dsimp only
+  have hcn := nsPoolForName_stable (cnamesEq_stable cfg net st.cnames)
+    (if q.qtype == T_DS then base q.name else q.name) depth st rfl
+  split
+  · rename_i st1 e heq
+    rw [heq] at hcn
+    have := hcn.1
+    dsimp only at this
+    split <;> exact ⟨by dsimp only; omega, fun r hr => by cases hr⟩
+  · rename_i st1 d1 pool heq
+    rw [heq] at hcn
+    have hc1 := hcn.1
+    dsimp only at hc1
+    obtain ⟨_, ha2⟩ := answerQuery_cost (cfg := cfg) (net := net) q pool st1
+    split
+    · rename_i st2 e heq2
+      rw [heq2] at ha2
+      dsimp only at ha2
+      exact ⟨by dsimp only; omega, fun r hr => by cases hr⟩
+    · rename_i st2 resp heq2
+      rw [heq2] at ha2
+      dsimp only at ha2
+      exact resolveCnames_cn hrec resp q d1 st2 (by omega)
+
+theorem resolveFuel_cn : ∀ f, CnOK (resolveFuel cfg net f) := by
+  intro f
+  induction f with
+  | zero => intro q d st h; exact ⟨by simp [resolveFuel]; omega, fun r hr => by cases hr⟩
+  | succ f ih =>
+    intro q d st h
+    unfold resolveFuel
+    split
+    · exact ⟨by dsimp only; omega, fun r hr => by cases hr⟩
+    · split
+      · exact resolveCnames_cn ih _ q d st h
+      · exact resolveMiss_cn ih q d st h
+    · exact resolveMiss_cn ih q d st h
+
+/-- The closed-form bound: `L = ns_recursion_limit`, `N` = NS records per response. -/
+def B (L N : Nat) : Nat := (MAX_CNAME_LOOKUPS + 2) * (1 + L * (1 + 2 * N)) ^ (L + 1)
+
+theorem Tf_le (L N : Nat) : ∀ f, 1 + Tf L N f ≤ (1 + L * (1 + 2 * N)) ^ f := by
+  intro f
+  induction f with
+  | zero => simp [Tf]
+  | succ f ih =>
+    have h1 : 1 + N * (Tf L N f + 2) ≤ (1 + 2 * N) * (1 + Tf L N f) := by
+      have e1 : N * (Tf L N f + 2) = N * Tf L N f + 2 * N := by rw [Nat.mul_add, Nat.mul_comm N 2]
+      have e2 : (1 + 2 * N) * (1 + Tf L N f) = 1 + Tf L N f + 2 * N + 2 * N * Tf L N f := by
+        rw [Nat.add_mul, Nat.one_mul, Nat.mul_add, Nat.mul_one]; omega
+      have e3 : 2 * N * Tf L N f = N * Tf L N f + N * Tf L N f := by rw [Nat.mul_assoc, Nat.two_mul]
+      omega
+    have h2 : L * (1 + N * (Tf L N f + 2)) ≤ L * ((1 + 2 * N) * (1 + Tf L N f)) :=
+      Nat.mul_le_mul_left _ h1
+    have hT : Tf L N (f + 1) = L * (1 + N * (Tf L N f + 2)) := rfl
+    have h3 : 1 + Tf L N (f + 1) ≤ (1 + L * (1 + 2 * N)) * (1 + Tf L N f) := by
+      rw [Nat.add_mul, Nat.one_mul, Nat.mul_assoc, hT]
+      omega
+    calc 1 + Tf L N (f + 1) ≤ (1 + L * (1 + 2 * N)) * (1 + Tf L N f) := h3
+      _ ≤ (1 + L * (1 + 2 * N)) * (1 + L * (1 + 2 * N)) ^ f := Nat.mul_le_mul_left _ ih
+      _ = (1 + L * (1 + 2 * N)) ^ (f + 1) := by rw [Nat.pow_succ, Nat.mul_comm]
+
+/-- **`queries_bounded`**: for EVERY network whose responses carry at most `N` NS records — every
+delegation graph: CNAME loops, NS loops, glueless cycles, lame and self-referential delegations —
+every query and every starting cache, one resolution makes at most
+`B(ns_recursion_limit, N) = (MAX_CNAME_LOOKUPS + 2) · (1 + L·(1 + 2N))^(L+1)` upstream lookups
+(`NameServerPool::lookup` calls) before it returns an answer or an error. -/
+theorem queries_bounded (hN : NetBound net N) (q : Query) (st : St) (h : CacheBound N st) :
+    (resolve cfg net q st).1.lookups ≤ st.lookups + B cfg.nsRecursionLimit N := by
+  unfold resolve
+  split
+  · dsimp only; omega
+  · have h0 : CacheBound N { st with cnames := 0 } := h
+    have hc := (resolveFuel_cost (cfg := cfg) hN (cfg.recursionLimit + 1)).2 q 0 _ h0
+    have hn := (resolveFuel_cn (cfg := cfg) (net := net) (cfg.recursionLimit + 1) q 0
+      { st with cnames := 0 } (by dsimp only; omega)).1
+    dsimp only at hc hn
+    have hT := Tf_le cfg.nsRecursionLimit N (cfg.nsRecursionLimit + 1)
+    have hR : nsBound cfg.nsRecursionLimit N + 1 ≤
+        (1 + cfg.nsRecursionLimit * (1 + 2 * N)) ^ (cfg.nsRecursionLimit + 1) := by
+      unfold nsBound; omega
+    have hmul := Nat.mul_le_mul_left (nsBound cfg.nsRecursionLimit N + 1) hn
+    have hB : (nsBound cfg.nsRecursionLimit N + 1) * (MAX_CNAME_LOOKUPS + 1) +
+        (nsBound cfg.nsRecursionLimit N + 1) ≤ B cfg.nsRecursionLimit N := by
+      unfold B
+      have : (nsBound cfg.nsRecursionLimit N + 1) * (MAX_CNAME_LOOKUPS + 1) +
+          (nsBound cfg.nsRecursionLimit N + 1) =
+          (MAX_CNAME_LOOKUPS + 2) * (nsBound cfg.nsRecursionLimit N + 1) := by
+        rw [Nat.mul_comm (MAX_CNAME_LOOKUPS + 2), Nat.mul_add, Nat.mul_add]
+        omega
+      rw [this]
+      exact Nat.mul_le_mul_left _ hR
+    simp only [Nat.mul_zero, Nat.add_zero] at hc
+    omega
+
+theorem cacheBound_empty (N : Nat) : CacheBound N St.empty := by
+  intro q r h; cases h
+
+end bound
 
 end HickoryVerif.C19
